@@ -163,10 +163,20 @@ Proof.
   rewrite E, sem_cond_add. cbn [map big_and fold_right]. rewrite sem_unwrap, and3_T_r. reflexivity.
 Qed.
 
-Lemma sem_holder_add (h : holder query) (c : cond query) :
+(* cond_where on a holder filled by and_or_where panics in the code: the statements below are about the holders on
+   which it does not *)
+Definition no_chain (h : holder query) : Prop := match h with HChain _ => False | _ => True end.
+
+Lemma holder_add_no_chain (h : holder query) (c : cond query) : no_chain h -> no_chain (holder_add h c).
+Proof.
+  destruct h as [|ms|cur]; [intros _; exact I|intros []|intros _].
+  unfold holder_add. destruct cur as [[|] [|] ?]; try exact I. destruct c as [[|] [|] ?]; exact I.
+Qed.
+
+Lemma sem_holder_add (h : holder query) (c : cond query) : no_chain h ->
   sem_holder rho (holder_add h c) = and3 (sem_holder rho h) (sem_cond rho c).
 Proof.
-  destruct h as [|cur]; cbn [holder_add sem_holder].
+  destruct h as [|ms|cur]; [intros _|intros []|intros _]; cbn [holder_add sem_holder].
   - now rewrite and3_T_l.
   - destruct cur as [n a cms]. destruct n, a; cbn [sem_holder]; try apply sem_wrap.
     (* current is a non-negated ALL *)
@@ -176,12 +186,38 @@ Proof.
 Qed.
 
 (* C06 (2): for every history of cond_where / and_where calls, the holder is the AND of them *)
-Theorem holder_is_conjunction (cs : list (cond query)) (h0 : holder query) :
+Theorem holder_is_conjunction (cs : list (cond query)) (h0 : holder query) : no_chain h0 ->
   sem_holder rho (fold_left holder_add cs h0) = and3 (sem_holder rho h0) (big_and (map (sem_cond rho) cs)).
 Proof.
-  revert h0. induction cs as [|c cs IH]; intros h0; cbn [fold_left map big_and fold_right].
+  revert h0. induction cs as [|c cs IH]; intros h0 Hn; cbn [fold_left map big_and fold_right].
   - now rewrite and3_T_r.
-  - rewrite IH, sem_holder_add, and3_assoc. reflexivity.
+  - rewrite IH by (now apply holder_add_no_chain). rewrite sem_holder_add by exact Hn. now rewrite and3_assoc.
+Qed.
+
+(* the doc-hidden and_or_where: a history of And(..) members denotes their conjunction; with Or(..) members the
+   chain is read the way SQL reads the flat text (sem_chain) *)
+Lemma sem_chain_from_and acc (es : list (expr query)) :
+  sem_chain_from rho acc (map (fun e => (false, e)) es) = and3 acc (big_and (map (eval3 rho) es)).
+Proof.
+  revert acc. induction es as [|e es IH]; intros acc; cbn [map sem_chain_from big_and fold_right].
+  - now rewrite and3_T_r.
+  - rewrite IH. now rewrite and3_assoc.
+Qed.
+
+Lemma fold_chain_and (es : list (expr query)) ms :
+  fold_left (fun h e => holder_add_chain h false e) es (HChain ms) = HChain (ms ++ map (fun e => (false, e)) es).
+Proof.
+  revert ms. induction es as [|e es IH]; intros ms; cbn [fold_left map holder_add_chain].
+  - now rewrite app_nil_r.
+  - rewrite IH, <- app_assoc. reflexivity.
+Qed.
+
+Theorem and_chain_is_conjunction (es : list (expr query)) :
+  sem_holder rho (fold_left (fun h e => holder_add_chain h false e) es HEmpty) = big_and (map (eval3 rho) es).
+Proof.
+  destruct es as [|e es]; [reflexivity|].
+  cbn [fold_left holder_add_chain]. rewrite fold_chain_and. cbn [app map sem_holder sem_chain].
+  rewrite sem_chain_from_and. reflexivity.
 Qed.
 
 (* C06 (3): a statement that was given no condition has no predicate; one that was given at least
